@@ -161,13 +161,17 @@ def get_ast(func):
         rawsource = inspect.getsource(code)
     except (OSError, IOError):
         return None
-    source = inspect.cleandoc('\n' + rawsource)
     try:
-        module = ast.parse(source)
+        if rawsource[:1] in ' \t':
+            # an indented definition: put it in a block rather than
+            # dedenting it, text in multi-line strings, continuation lines
+            # and comments may be indented less than the def is
+            func_ast = ast.parse('if 1:\n' + rawsource).body[0].body[0]
+        else:
+            func_ast = ast.parse(rawsource).body[0]
     except SyntaxError:
         # the lines holding a lambda need not form a statement
         return None
-    func_ast = module.body[0]
     if not isinstance(func_ast, (ast.FunctionDef, ast.AsyncFunctionDef)):
         # a lambda: what comes back is the statement it is written in
         return None
